@@ -46,6 +46,31 @@ impl Step {
 
 const SEC_ERR: &str = "To read security keys you must auth as an admin!";
 
+/// every '*' stands for any text (possibly empty)
+fn matches_glob(pattern: &str, key: &str) -> bool {
+    let parts: Vec<&str> = pattern.split('*').collect();
+    if parts.len() == 1 {
+        return key.contains(pattern);
+    }
+    let mut rest = key;
+    for (i, part) in parts.iter().enumerate() {
+        if i == 0 {
+            if !rest.starts_with(part) {
+                return false;
+            }
+            rest = &rest[part.len()..];
+        } else if i == parts.len() - 1 {
+            return rest.ends_with(part);
+        } else {
+            match rest.find(part) {
+                Some(at) => rest = &rest[at + part.len()..],
+                None => return false,
+            }
+        }
+    }
+    true
+}
+
 fn matches(pattern: &str, key: &str) -> bool {
     if pattern.ends_with('*') {
         key.starts_with(&pattern.replace('*', ""))
@@ -278,11 +303,27 @@ fn run_history(steps: &[Step], dir: &str, v: &Verdicts, stats: &Mutex<Stats>) {
                     }
                     Op::Keys(p) => {
                         expected_class = "Value".into();
-                        let exp: String = fx
+                        let mut exp: String = fx
                             .model
                             .keys()
                             .filter(|k| (admin || !k.starts_with("$$")) && matches(p, k))
                             .fold(String::new(), |acc, k| format!("{},{}", acc, k));
+                        // a pattern with more than one '*' (or one in the middle) is not covered by "prefix / suffix /
+                        // contains": the code's rule (all stars dropped, the end that carries a star decides) and a
+                        // reading of every '*' as "any text" are both accepted; anything else is no listing of the
+                        // matching keys under any reading
+                        if p.matches('*').count() > 1 || (p.contains('*') && !p.starts_with('*') && !p.ends_with('*')) {
+                            let glob: String = fx
+                                .model
+                                .keys()
+                                .filter(|k| (admin || !k.starts_with("$$")) && matches_glob(p, k))
+                                .fold(String::new(), |acc, k| format!("{},{}", acc, k));
+                            if let Some(Response::Value { value, .. }) = &resp {
+                                if value == &glob {
+                                    exp = glob;
+                                }
+                            }
+                        }
                         match &resp {
                             Some(Response::Value { key, value, .. }) => {
                                 if key != "keys" || value != &exp {
@@ -390,7 +431,7 @@ fn random_step(r: &mut Rng) -> Step {
     // "#t" sorts before every "$$" key: the listing must hide secure keys wherever they fall in the order
     let keys = ["a", "ab", "b", "$x", "$$s", "#t"];
     let values = ["", "1", "-7", "2147483647", "x y", "007", "v", "-2147483648", "+4", " 5", "v ", " ", "5 ", "t\t"];
-    let pats = ["", "*", "a*", "*b", "a", "$$*", "*$$", "$*", "b*", "*x"];
+    let pats = ["", "*", "a*", "*b", "a", "$$*", "*$$", "$*", "b*", "*x", "*a*", "**", "a**", "**b", "*a*b", "a*b*", "*$*", "a*b", "*#*"];
     let admin = r.chance(1, 4);
     let k = r.pick(&keys).to_string();
     let op = match r.below(20) {
@@ -487,7 +528,7 @@ pub fn run(tier: &str) -> i32 {
     let s = stats.into_inner().unwrap();
     ev.evaluations = s.histories;
     ev.distinct_nontrivial = s.nontrivial_histories.len() as u64;
-    ev.rule = format!("histories = all sequences of length {} over a {}-step sub-alphabet ({} systematic) + {} seeded random sequences of length 4-30 over 6 keys x 10 values x 10 patterns; non-trivial = distinct history (hash of its steps) in which at least one command hit a key whose internal status was Ok/Updated/Deleted (i.e. persisted by an earlier snapshot)", depth, alphabet.len(), systematic, n_random);
+    ev.rule = format!("histories = all sequences of length {} over a {}-step sub-alphabet ({} systematic) + {} seeded random sequences of length 4-30 over 6 keys x 14 values x 19 patterns (incl. patterns with several stars, judged under either reading of them); non-trivial = distinct history (hash of its steps) in which at least one command hit a key whose internal status was Ok/Updated/Deleted (i.e. persisted by an earlier snapshot)", depth, alphabet.len(), systematic, n_random);
     ev.samples = s.samples.clone();
     ev.set("commands_checked", json!(s.commands));
     ev.set("refused_commands_with_unchanged_dump_check", json!(s.refused_checked));
